@@ -28,7 +28,7 @@ class TK:
 class HObj:
     """kind: list | dict | obj | bytearray | set"""
 
-    __slots__ = ("kind", "items", "exact", "kv", "writes", "cls", "attrs", "origin", "version", "label", "created_ctx", "base", "is_gen", "sure")
+    __slots__ = ("kind", "items", "exact", "kv", "writes", "cls", "attrs", "origin", "version", "label", "created_ctx", "base", "is_gen", "sure", "is_stream")
 
     def __init__(self, kind, cls=None, origin=None, label=""):
         self.kind = kind
@@ -44,6 +44,7 @@ class HObj:
         self.created_ctx = ()
         self.base = None  # bytearray(base) / list(base) source term when not exact
         self.is_gen = False
+        self.is_stream = False  # bytearray standing for a write-only io.BytesIO()
         self.sure = None  # dict: keys certainly present when not exact
 
     def clone(self) -> "HObj":
@@ -57,6 +58,7 @@ class HObj:
         o.created_ctx = self.created_ctx
         o.base = self.base
         o.is_gen = self.is_gen
+        o.is_stream = self.is_stream
         o.sure = set(self.sure) if self.sure is not None else None
         return o
 
